@@ -1,7 +1,7 @@
 ---------------------------- MODULE TransportCases ----------------------------
 (* M5 for C15 / C16: transcripts of the same channel programs on different transports / bootstrap paths.
    case "transcript": [base (transcript on plain popen, thread), other, transport, execmodel, isolated (BOOLEAN), err]
-   case "control":    [alive_before, gone_after_kill_ms, wait_returned, gone_after_wait_then_kill_ms, pending_wait_returned, isolated, err]
+   case "control":    [alive_before, gone_after_kill_ms, wait_returned, gone_after_wait_then_kill_ms, pending_wait_returned, lingering_before_kill, gone_after_exit_then_kill_ms, isolated, err]
    A transcript is a sequence of entries (sequences of strings / ints / booleans / sequences), compared by equality:
    "observationally equivalent" means the transcripts are identical.
 *)
@@ -24,6 +24,7 @@ CVerdict(c) ==
   ELSE IF ~c.wait_returned THEN Pfx(c) \o "wait-request-did-not-return-the-exit-status"
   ELSE IF c.gone_after_wait_then_kill_ms = -1 THEN Pfx(c) \o "kill-request-behind-a-pending-wait-request-did-not-reach-the-proxied-process"
   ELSE IF ~c.pending_wait_returned THEN Pfx(c) \o "pending-wait-request-not-answered-after-the-kill"
+  ELSE IF c.lingering_before_kill /\ c.gone_after_exit_then_kill_ms = -1 THEN Pfx(c) \o "kill-request-after-the-connection-closed-did-not-reach-the-lingering-process"
   ELSE "ok"
 Verdict(c) == IF c.k = "transcript" THEN TVerdict(c) ELSE CVerdict(c)
 ASSUME PrintT(<<"verdicts", [i \in 1..Len(Cases) |-> Verdict(Cases[i])]>>)
